@@ -170,4 +170,45 @@ theorem C14_wrap_transparent (m : Nat → Bool) (i : Nat) (c : E) (hi : m i = fa
 example : isEnd (.join 1000 (.cons (.wrap 1000 (.join 1000 (.cons (.leaf 5) (.cons (.leaf 30) .nil)))) (.cons (.wrap 1000 (.leaf 1)) .nil))) = true := by
   rw [C14_isEnd_iff]; decide
 
+theorem mkErr_submit_contains (t : String) : (mkErr ["submit", t]).contains "submit" = true := by
+  simp only [mkErr, List.foldr, insTag]
+  by_cases h1 : "submit" < t
+  · simp [h1]
+  · by_cases h2 : ("submit" == t) = true
+    · have : t = "submit" := by simpa using Eq.symm (by simpa using h2)
+      subst this; simp
+    · simp [h1, h2]
+
+/-- Disconnect returns nil, ErrClosed, ErrDown, or an ErrSubmit – also when it is the Close of the connection that fails
+after the DISCONNECT went out (F27). (`unsupported` is the model's own answer where it stops following.) -/
+theorem C14_disconnect (s : S) :
+    let e := s.disconnectNow.2
+    e = errOk ∨ e = mkErr ["closed"] ∨ e = mkErr ["down"] ∨ e = mkErr ["unsupported"] ∨ e.contains "submit" = true := by
+  intro e
+  simp only [e]
+  unfold S.disconnectNow
+  cases hl : s.link with
+  | pending => exact Or.inr (Or.inr (Or.inl rfl))
+  | down => exact Or.inr (Or.inr (Or.inl rfl))
+  | closed => exact Or.inr (Or.inl rfl)
+  | live =>
+    simp only
+    split
+    · exact Or.inr (Or.inr (Or.inr (Or.inl rfl)))
+    · rcases hw : s.connWrite (writeTo · packetDISCONNECT) with ⟨s1, o⟩
+      simp only
+      by_cases ho : (o == WOut.ok) = true
+      · simp only [ho, if_true]
+        split
+        · exact Or.inr (Or.inr (Or.inr (Or.inr (mkErr_submit_contains _))))
+        · exact Or.inl rfl
+      · simp only [ho]
+        exact Or.inr (Or.inr (Or.inr (Or.inr (mkErr_submit_contains _))))
+
+/-- REGENERATED FACT. `Client.Backoff` answers nil (no retry) for exactly the errors of one table, and that table is put together
+from the deny list and the end list – the lists `IsDeny` and `IsEnd` classify with (`C14_isDeny_iff`, `C14_isEnd_iff`) – as the
+extractor reads it off the source on every run: Backoff is nil exactly for the permanent classes. -/
+theorem C14_fact_backoff_nil_table :
+    Facts.syn_Backoff_nilTable = "denyAndEndErrs" ∧ Facts.denyAndEndErrs_parts = ["denyErrs", "endErrs"] := by decide
+
 end Model
